@@ -254,6 +254,16 @@ func debugBounds(w *World, names []string) {
 			total++
 			if res.ok {
 				proved++
+				if d := os.Getenv("SFNT_BTRACE_OK"); d != "" && strings.Contains(w.Pos(res.site.ins.Pos()), d) {
+					p := br.prover(fn)
+					fmt.Println("PROVED", w.Pos(res.site.ins.Pos()), res.site.descr)
+					for _, f := range p.factsAt(res.site.ins.Block()) {
+						fmt.Println("      fact", p.linStr(f.e), map[bool]string{true: "!= 0", false: ">= 0"}[f.ne], f.why)
+					}
+					p.trace = true
+					p.decide(res.site)
+					p.trace = false
+				}
 				continue
 			}
 			s := res.site
